@@ -533,3 +533,6 @@ func LoopState() (state, frame, dump string) {
 	}
 	return "gone", "", dump
 }
+
+// TakeCrash returns (and clears) a fatal exit recorded since the last call.
+func TakeCrash() *CrashInfo { return takeCrash() }
